@@ -15,6 +15,7 @@ import (
 	"strconv"
 	"strings"
 	"sync"
+	"sync/atomic"
 	"time"
 
 	"istio.io/istio/pkg/file"
@@ -40,6 +41,7 @@ import (
 type fileSUT struct {
 	*sut
 	kube       bool // kubelet-style volume: files are symlinks through ..data, an update swaps ..data atomically
+	link       bool // each file is a plain symlink to a versioned target; an update re-points the symlink atomically
 	gen        int  // kube: number of the current ..ts<gen> directory
 	dir        string
 	wv         int         // version of the key/cert pair on disk
@@ -91,11 +93,23 @@ func (f *fileSUT) publish(key, cert []byte) {
 	}
 }
 
-func newFileSUT(kube bool) *fileSUT {
+// repoint (link): write a new target file and rename a fresh symlink over the old one.
+func (f *fileSUT) repoint(name string, content []byte) {
+	f.gen++
+	target := fmt.Sprintf("real.%s.%d", name, f.gen)
+	must(os.WriteFile(filepath.Join(f.dir, target), content, 0o644))
+	tmp := filepath.Join(f.dir, name+".lnk")
+	_ = os.Remove(tmp)
+	must(os.Symlink(target, tmp))
+	must(os.Rename(tmp, filepath.Join(f.dir, name)))
+}
+
+func newFileSUT(variant string) *fileSUT {
+	kube := variant == "kube"
 	initRoots()
 	dir, err := os.MkdirTemp("", "c18file")
 	must(err)
-	f := &fileSUT{dir: dir, rootLetter: 'A', kube: kube}
+	f := &fileSUT{dir: dir, rootLetter: 'A', kube: kube, link: variant == "link"}
 	cert, key, root := f.paths()
 	k, c := f.newPair()
 	if kube {
@@ -103,6 +117,10 @@ func newFileSUT(kube bool) *fileSUT {
 		for _, n := range []string{"key.pem", "cert-chain.pem", "root-cert.pem"} {
 			must(os.Symlink(filepath.Join("..data", n), filepath.Join(dir, n)))
 		}
+	} else if f.link {
+		f.repoint("key.pem", k)
+		f.repoint("cert-chain.pem", c)
+		f.repoint("root-cert.pem", []byte(rootByName('A').pem))
 	} else {
 		must(os.WriteFile(key, k, 0o644))
 		must(os.WriteFile(cert, c, 0o644))
@@ -183,19 +201,26 @@ func (f *fileSUT) op(t []string) string {
 		if t[1] == "w" {
 			k, c := f.newPair()
 			f.wv = len(f.versions) - 1
-			if f.kube {
+			switch {
+			case f.kube:
 				f.publish(k, c)
-			} else {
+			case f.link:
+				f.repoint("cert-chain.pem", c)
+				f.repoint("key.pem", k)
+			default:
 				must(file.AtomicWrite(cert, c, 0o644))
 				must(file.AtomicWrite(key, k, 0o644))
 			}
 		} else {
 			want = 'R'
 			f.rootLetter = 'A' + (f.rootLetter-'A'+1)%nRoots
-			if f.kube {
+			switch {
+			case f.kube:
 				v := f.versions[f.wv]
 				f.publish(v[0], v[1])
-			} else {
+			case f.link:
+				f.repoint("root-cert.pem", []byte(rootByName(f.rootLetter).pem))
+			default:
 				must(file.AtomicWrite(root, []byte(rootByName(f.rootLetter).pem), 0o644))
 			}
 		}
@@ -210,8 +235,20 @@ func (f *fileSUT) op(t []string) string {
 			}
 			time.Sleep(2 * time.Millisecond)
 		}
-		time.Sleep(60 * time.Millisecond)
-		got += strings.ReplaceAll(f.takeEvents(), "-", "")
+		// the rest of the burst (one replacement produces several inotify events, a kubelet publish announces every
+		// watched resource): wait until no callback arrived for 200 ms.  A sleep that overshoots says the machine is
+		// overloaded - then the watcher goroutine is held up as well, and the quiet period starts again.
+		for quiet, t0 := 0, time.Now(); quiet < 5 && time.Since(t0) < 10*time.Second; {
+			s0 := time.Now()
+			time.Sleep(40 * time.Millisecond)
+			more := strings.ReplaceAll(f.takeEvents(), "-", "")
+			got += more
+			if more != "" || time.Since(s0) > 80*time.Millisecond {
+				quiet = 0
+			} else {
+				quiet++
+			}
+		}
 		hit, other := false, false
 		for i := 0; i < len(got); i++ {
 			switch {
@@ -230,6 +267,8 @@ func (f *fileSUT) op(t []string) string {
 		return fmt.Sprintf("cb=%s other=%s | %s", wire.B(hit), wire.B(other), f.state())
 	case "fstress":
 		return f.stress(t)
+	case "fflicker":
+		return f.flicker(t)
 	case "bundle":
 		if len(t) != 2 {
 			return "bad-op"
@@ -249,7 +288,7 @@ func (f *fileSUT) op(t []string) string {
 // certificate on disk for a few milliseconds (the validate-and-retry path).  Every answer must be a key and a
 // certificate of the SAME written version; at the end the answer is the last version; the CA is never asked.
 func (f *fileSUT) stress(t []string) string {
-	if len(t) != 2 || f.kube {
+	if len(t) != 2 || f.link {
 		return "bad-op"
 	}
 	ms, err := strconv.Atoi(t[1])
@@ -269,6 +308,7 @@ func (f *fileSUT) stress(t []string) string {
 		mu.Unlock()
 	}
 	var vmu sync.Mutex // f.versions is appended by the writer
+	var fallbacks int64
 	for g := 0; g < 6; g++ {
 		g := g
 		wg.Add(1)
@@ -299,18 +339,49 @@ func (f *fileSUT) stress(t []string) string {
 				vmu.Lock()
 				v := f.pairVersion(it.PrivateKey, it.CertificateChain)
 				vmu.Unlock()
+				if v == "?" && f.kube && f.ca.calls() > 0 {
+					// A kubelet publish removes the previous ..ts directory right after the ..data swap: a request that
+					// resolved ..data just before finds no file, and the agent falls back to the CA for that request
+					// (keyCertificateExist, by design).  Counted; the pair must still belong together.
+					if leaf := leafOf(it.CertificateChain); leaf == nil || !bytes.Equal(leaf.RawSubjectPublicKeyInfo, pubOfKey(it.PrivateKey)) {
+						fail("pair-mismatch the CA fallback served a key and a certificate that do not belong together")
+					}
+					atomic.AddInt64(&fallbacks, 1)
+					continue
+				}
 				if v == "x" || v == "?" {
 					fail("pair-mismatch served key and certificate of different file versions " + v)
 				}
 			}
 		}()
 	}
+	// configured anchors change concurrently with the file events
+	wg.Add(1)
+	go func() {
+		defer wg.Done()
+		for k := 0; ; k++ {
+			select {
+			case <-stop:
+				return
+			default:
+			}
+			_ = f.sc.UpdateConfigTrustBundle([]byte(strings.Join(bundlePEMs([]string{"C", "D", "CD"}[k%3]), "")))
+			time.Sleep(2 * time.Millisecond)
+		}
+	}()
+	writes := 0
 	deadline := time.Now().Add(time.Duration(ms) * time.Millisecond)
 	for k := 0; time.Now().Before(deadline); k++ {
 		vmu.Lock()
 		kp, cp := f.newPair()
 		f.wv = len(f.versions) - 1
 		vmu.Unlock()
+		writes++
+		if f.kube {
+			f.publish(kp, cp) // a whole new ..ts directory, ..data swapped
+			time.Sleep(4 * time.Millisecond)
+			continue
+		}
 		if k%3 == 2 {
 			// a writer caught in the middle: a truncated certificate is on disk for a few milliseconds (never an
 			// empty file: an empty or missing file makes the agent fall back to the CA, by design)
@@ -335,10 +406,58 @@ func (f *fileSUT) stress(t []string) string {
 		return "violated fstress-stale final answer is not the last version"
 	}
 	f.takeEvents()
-	if f.ca.calls() != 0 {
-		return "violated fstress-called-ca"
+	if f.ca.calls() != 0 && !f.kube {
+		return "violated fstress-called-ca" // regular files are replaced by rename: they never vanish
 	}
+	statf("fstress versions-written=%d kube=%v ca-fallbacks=%d ca-calls=%d", writes, f.kube, atomic.LoadInt64(&fallbacks), f.ca.calls())
 	return "ok fstress"
+}
+
+func caseVariant(t []string) string {
+	if len(t) == 4 && t[0] == "case" {
+		return t[3]
+	}
+	return ""
+}
+
+// flicker: `fflicker` - the root file vanishes and reappears many times while GenerateSecret(ROOTCA) runs (adding the
+// watcher can then fail: the file is gone when inotify is asked); afterwards the file is stable, one more
+// GenerateSecret registers the watch, and a replacement of the file must be announced.  Last op of its case (what was
+// served meanwhile - the file or, while it was missing, the CA - is not deterministic).
+func (f *fileSUT) flicker(t []string) string {
+	if len(t) != 1 || f.kube || f.link {
+		return "bad-op"
+	}
+	_, _, root := f.paths()
+	var stop int32
+	done := make(chan struct{})
+	go func() {
+		defer close(done)
+		for atomic.LoadInt32(&stop) == 0 {
+			_ = os.Remove(root)
+			_ = os.WriteFile(root, []byte(rootByName(f.rootLetter).pem), 0o644)
+		}
+	}()
+	f.ca.next = caOutcome{kind: "ok", ttl: time.Hour, signer: 'A', bundle: "-"}
+	for i := 0; i < 300; i++ {
+		_, _ = f.sc.GenerateSecret(security.RootCertReqResourceName)
+	}
+	atomic.StoreInt32(&stop, 1)
+	<-done
+	time.Sleep(300 * time.Millisecond) // pending retries of addFileWatcher
+	f.takeEvents()
+	if _, err := f.sc.GenerateSecret(security.RootCertReqResourceName); err != nil {
+		return "err"
+	}
+	f.rootLetter = 'A' + (f.rootLetter-'A'+1)%nRoots
+	must(file.AtomicWrite(root, []byte(rootByName(f.rootLetter).pem), 0o644))
+	got := ""
+	deadline := time.Now().Add(20 * time.Second)
+	for time.Now().Before(deadline) && !strings.ContainsAny(got, "Rr") {
+		got += f.takeEvents()
+		time.Sleep(2 * time.Millisecond)
+	}
+	return "cb=" + wire.B(strings.ContainsAny(got, "Rr"))
 }
 
 func genFile(seed uint64, n int, path string) {
@@ -354,7 +473,21 @@ func genFile(seed uint64, n int, path string) {
 			out.Line("fstress", "500") // last op of its case: how many versions were written is not deterministic
 			continue
 		}
-		if r.Chance(1, 3) {
+		if i == 1 {
+			out.Line("case", "1", "file", "kube")
+			out.Line("fgen", "w")
+			out.Line("fstress", "400") // the same on a kubelet volume (whole-directory publishes)
+			continue
+		}
+		if i == 2 {
+			out.Line("case", "2", "file")
+			out.Line("fgen", "r")
+			out.Line("fflicker") // the root file vanishes and reappears while it is being requested and watched
+			continue
+		}
+		if x := r.Intn(6); x == 0 {
+			out.Line("case", strconv.Itoa(i), "file", "link") // plain symlinks, re-pointed on update
+		} else if x < 3 {
 			out.Line("case", strconv.Itoa(i), "file", "kube") // kubelet-style ..data symlink volume
 		} else {
 			out.Line("case", strconv.Itoa(i), "file")
@@ -376,7 +509,7 @@ func genFile(seed uint64, n int, path string) {
 			case x < 9 && armedR:
 				out.Line("fwrite", "r")
 				armedR = false
-			case x == 9 && r.Chance(1, 2):
+			case x >= 8 && r.Chance(1, 2):
 				out.Line("fgen", wire.Pick(r, []string{"fc", "fr"})) // the same files under their file-cert: / file-root: names
 			case x == 9:
 				b := randLetters(r, 0, 2)
@@ -393,6 +526,9 @@ func genFile(seed uint64, n int, path string) {
 					armedR = true
 				}
 			}
+		}
+		if r.Chance(1, 2) {
+			out.Line("fgen", wire.Pick(r, []string{"fc", "fr"}))
 		}
 	}
 }
@@ -433,7 +569,7 @@ func execFile(in, outp string) {
 					}
 				}()
 				if f == nil {
-					f = newFileSUT(len(t) == 4 && t[0] == "case" && t[3] == "kube")
+					f = newFileSUT(caseVariant(t))
 				}
 				if t[0] == "case" {
 					outl = append(outl, "ok")
@@ -482,7 +618,7 @@ func oracleFile(in, outp string) {
 					}
 				}()
 				if f == nil {
-					f = newFileSUT(len(t) == 4 && t[0] == "case" && t[3] == "kube")
+					f = newFileSUT(caseVariant(t))
 				}
 				if t[0] == "case" {
 					return
@@ -490,6 +626,22 @@ func oracleFile(in, outp string) {
 				r := f.op(t)
 				if t[0] == "fgen" && len(t) == 2 {
 					armed[t[1]] = true
+				}
+				if t[0] == "fflicker" {
+					// while the root file is missing the agent asks the CA (by design): only the announcement is judged
+					if r != "cb=1" {
+						fail("file-change-unannounced", t, r+" (the file is not watched after a failed watcher registration)")
+					}
+					return
+				}
+				if t[0] == "fstress" && f.kube {
+					// a kubelet publish lets the files vanish for an instant: the CA fallback may have answered (and
+					// cached) in between - only the op's own verdict is judged (last op of its case)
+					if strings.HasPrefix(r, "violated ") {
+						fl := strings.Fields(r)
+						fail(fl[1], t, strings.Join(fl[2:], " "))
+					}
+					return
 				}
 				if f.ca.calls() != 0 {
 					fail("file-called-ca", t, r)
